@@ -35,6 +35,28 @@ def _u(node):
     return ast.unparse(node)
 
 
+class _Rename(ast.NodeTransformer):
+    def __init__(self, mp):
+        self.mp = mp
+
+    def visit_Name(self, node):
+        return ast.copy_location(ast.Name(id=self.mp.get(node.id, node.id), ctx=node.ctx), node)
+
+
+def _ur(node, mp):
+    """unparse after renaming local variables (so that a pure renaming keeps the recognised shape)"""
+    import copy as _copy
+    return ast.unparse(ast.fix_missing_locations(_Rename(mp).visit(_copy.deepcopy(node))))
+
+
+def _names(target):
+    if isinstance(target, ast.Name):
+        return [target.id]
+    if isinstance(target, ast.Tuple) and all(isinstance(e, ast.Name) for e in target.elts):
+        return [e.id for e in target.elts]
+    raise Unsupported('loop target ' + ast.unparse(target))
+
+
 # --------------------------------------------------------------------------- coordinates.py
 def forward_map_facts(tree):
     fn = _fn(tree, 'forward_map_molecule')
@@ -45,39 +67,46 @@ def forward_map_facts(tree):
     if len(body) != 1 or not isinstance(body[0], ast.For):
         raise Unsupported('forward_map_molecule is not a single loop over the coarse nodes')
     loop = body[0]
-    if _u(loop.target) != 'cg_node' or _u(loop.iter) != 'cg_mol.nodes' or loop.orelse:
-        raise Unsupported('outer loop of forward_map_molecule is not `for cg_node in cg_mol.nodes`')
     st = loop.body
-    if len(st) != 5:
+    if len(st) != 5 or loop.orelse:
         raise Unsupported('forward_map_molecule loop body has %d statements (5 modelled)' % len(st))
-    if _u(st[0]) != "weights = nx.get_node_attributes(cg_mol.nodes[cg_node]['graph'], 'weight')":
-        raise Unsupported('weights statement: ' + _u(st[0]))
-    if _u(st[1]) != 'cg_pos = np.zeros(3)':
-        raise Unsupported('accumulator initialisation: ' + _u(st[1]))
     inner = st[2]
-    if not (isinstance(inner, ast.For) and _u(inner.target) == '(aa_node, weight)'
-            and _u(inner.iter) == 'weights.items()' and len(inner.body) == 1 and not inner.orelse):
+    if not (isinstance(loop.target, ast.Name) and isinstance(st[0], ast.Assign) and isinstance(st[1], ast.Assign)
+            and isinstance(st[0].targets[0], ast.Name) and isinstance(st[1].targets[0], ast.Name)
+            and isinstance(inner, ast.For) and len(_names(inner.target)) == 2):
+        raise Unsupported('forward_map_molecule: statement shapes changed')
+    an, wn = _names(inner.target)
+    mp = {loop.target.id: 'cg_node', st[0].targets[0].id: 'weights', st[1].targets[0].id: 'cg_pos', an: 'aa_node',
+          wn: 'weight'}
+    if len(mp) != 5 or set(mp) & {'cg_mol', 'aa_mol', 'np', 'nx'}:
+        raise Unsupported('forward_map_molecule: a name is reused')
+    u = lambda n: _ur(n, mp)
+    if u(loop.iter) not in ('cg_mol.nodes', 'cg_mol'):
+        raise Unsupported('outer loop of forward_map_molecule is not over cg_mol.nodes')
+    if u(st[0]) != "weights = nx.get_node_attributes(cg_mol.nodes[cg_node]['graph'], 'weight')":
+        raise Unsupported('weights statement: ' + _u(st[0]))
+    if u(st[1]) != 'cg_pos = np.zeros(3)':
+        raise Unsupported('accumulator initialisation: ' + _u(st[1]))
+    if not (u(inner.iter) == 'weights.items()' and len(inner.body) == 1 and not inner.orelse):
         raise Unsupported('inner loop is not `for aa_node, weight in weights.items()` with one statement')
     acc = inner.body[0]
-    if not (isinstance(acc, ast.AugAssign) and isinstance(acc.op, ast.Add) and _u(acc.target) == 'cg_pos'):
+    if not (isinstance(acc, ast.AugAssign) and isinstance(acc.op, ast.Add) and u(acc.target) == 'cg_pos'):
         raise Unsupported('accumulation statement: ' + _u(acc))
-    if _u(acc.value) not in ("aa_mol.nodes[aa_node]['position'] * weight",
-                             "weight * aa_mol.nodes[aa_node]['position']"):
+    if u(acc.value) not in ("aa_mol.nodes[aa_node]['position'] * weight",
+                            "weight * aa_mol.nodes[aa_node]['position']"):
         raise Unsupported('accumulated term is not position*weight: ' + _u(acc.value))
     div = st[3]
-    if not (isinstance(div, ast.Assign) and _u(div.targets[0]) == 'cg_pos' and isinstance(div.value, ast.BinOp)
-            and isinstance(div.value.op, ast.Div) and _u(div.value.left) == 'cg_pos'):
+    if not (isinstance(div, ast.Assign) and u(div.targets[0]) == 'cg_pos' and isinstance(div.value, ast.BinOp)
+            and isinstance(div.value.op, ast.Div) and u(div.value.left) == 'cg_pos'):
         raise Unsupported('normalisation statement: ' + _u(div))
-    den = _u(div.value.right)
+    den = u(div.value.right)
     if den == 'len(weights)':
         mode = 'DivByLen'
-    elif den in ('sum(weights.values())', 'np.sum(list(weights.values()))', 'math.fsum(weights.values())'):
-        if den != 'sum(weights.values())':
-            raise Unsupported('sum of weights by %s: accumulation order not modelled' % den)
+    elif den == 'sum(weights.values())':
         mode = 'DivBySum'
     else:
         raise Unsupported('denominator of the bead average: ' + den)
-    if _u(st[4]) != "cg_mol.nodes[cg_node]['position'] = cg_pos":
+    if u(st[4]) != "cg_mol.nodes[cg_node]['position'] = cg_pos":
         raise Unsupported('store statement: ' + _u(st[4]))
     return mode
 
@@ -150,18 +179,23 @@ def embed_facts(tree):
     lp = loops[0]
     if len(lp.body) != 2 or lp.orelse:
         raise Unsupported('write-back loop body')
-    if _u(lp.body[0]) != 'pos = conf.GetAtomPosition(atom.GetIdx())':
+    tn = _names(lp.target)
+    if len(tn) != 2 or not (isinstance(lp.body[0], ast.Assign) and isinstance(lp.body[0].targets[0], ast.Name)):
+        raise Unsupported('write-back loop header/body shape')
+    mp = {tn[0]: 'KEY', tn[1]: 'atom', lp.body[0].targets[0].id: 'pos'}
+    if len(set(mp)) != 3 or set(mp) & {'mol_graph', 'rdkit_mol', 'conf', 'np'}:
+        raise Unsupported('write-back loop reuses a name')
+    if _ur(lp.body[0], mp) != 'pos = conf.GetAtomPosition(atom.GetIdx())':
         raise Unsupported('write-back loop reads ' + _u(lp.body[0]))
-    head = 'for %s in %s' % (_u(lp.target), _u(lp.iter))
-    store = _u(lp.body[1])
-    if head == 'for (ndx, atom) in enumerate(rdkit_mol.GetAtoms())' and \
-            store == "mol_graph.nodes[ndx]['position'] = np.array([pos.x, pos.y, pos.z])":
+    it = _ur(lp.iter, mp)
+    store = _ur(lp.body[1], mp)
+    if store != "mol_graph.nodes[KEY]['position'] = np.array([pos.x, pos.y, pos.z])":
+        raise Unsupported('write-back store not modelled: ' + _u(lp.body[1]))
+    if it == 'enumerate(rdkit_mol.GetAtoms())':
         return 'WriteByEnumIndex'
-    if head in ('for (node, atom) in zip(mol_graph.nodes, rdkit_mol.GetAtoms())',
-                'for (node, atom) in zip(mol_graph, rdkit_mol.GetAtoms())') and \
-            store == "mol_graph.nodes[node]['position'] = np.array([pos.x, pos.y, pos.z])":
+    if it in ('zip(mol_graph.nodes, rdkit_mol.GetAtoms())', 'zip(mol_graph, rdkit_mol.GetAtoms())'):
         return 'WriteByNodeKey'
-    raise Unsupported('write-back loop shape not modelled: %s: %s' % (head, store))
+    raise Unsupported('write-back loop iterates over ' + _u(lp.iter))
 
 
 def r2n_facts(tree):
@@ -225,20 +259,27 @@ def rescale_facts(tree):
     if len(tail) != 5:
         raise Unsupported('vespr_layout too short')
     init, loop, fin, upd, ret = tail
-    if _u(init) != 'avg_dist = 0':
+    if not (isinstance(init, ast.Assign) and isinstance(init.targets[0], ast.Name) and _u(init.value) == '0'):
         raise Unsupported('rescale: ' + _u(init))
-    if not (isinstance(loop, ast.For) and _u(loop.target) == 'edge' and _u(loop.iter) == 'graph.edges'
-            and len(loop.body) == 1 and not loop.orelse
-            and _u(loop.body[0]) == 'avg_dist += np.linalg.norm(pos[edge[0]] - pos[edge[1]])'):
+    if not (isinstance(loop, ast.For) and isinstance(upd, ast.For) and isinstance(loop.target, ast.Name)
+            and isinstance(upd.target, ast.Name)):
+        raise Unsupported('rescale: loops changed')
+    mp = {init.targets[0].id: 'avg_dist', loop.target.id: 'edge'}
+    mp2 = {init.targets[0].id: 'avg_dist', upd.target.id: 'node'}
+    if set(mp) & {'pos', 'graph', 'default_bond', 'np'} or set(mp2) & {'pos', 'graph', 'default_bond', 'np'}:
+        raise Unsupported('rescale: a name is reused')
+    if not (_ur(loop.iter, mp) == 'graph.edges' and len(loop.body) == 1 and not loop.orelse
+            and _ur(loop.body[0], mp) == 'avg_dist += np.linalg.norm(pos[edge[0]] - pos[edge[1]])'):
         raise Unsupported('rescale: accumulation of bond lengths changed: ' + _u(loop))
-    if not (isinstance(fin, ast.Assign) and _u(fin.targets[0]) == 'avg_dist'):
+    if not (isinstance(fin, ast.Assign) and _ur(fin.targets[0], mp) == 'avg_dist'):
         raise Unsupported('rescale: ' + _u(fin))
-    avg_final = _arith(fin.value, {'avg_dist': 'avg_dist'})
-    if not (isinstance(upd, ast.For) and _u(upd.target) == 'node' and _u(upd.iter) == 'pos' and len(upd.body) == 1
+    avg_final = _arith(_Rename(mp).visit(__import__('copy').deepcopy(fin.value)), {'avg_dist': 'avg_dist'})
+    if not (_ur(upd.iter, mp2) == 'pos' and len(upd.body) == 1
             and isinstance(upd.body[0], ast.AugAssign) and isinstance(upd.body[0].op, ast.Mult)
-            and _u(upd.body[0].target) == 'pos[node]'):
+            and _ur(upd.body[0].target, mp2) == 'pos[node]'):
         raise Unsupported('rescale: update loop changed: ' + _u(upd))
-    factor = _arith(upd.body[0].value, {'default_bond': 'default_bond', 'avg_dist': 'avg_dist'})
+    factor = _arith(_Rename(mp2).visit(__import__('copy').deepcopy(upd.body[0].value)),
+                    {'default_bond': 'default_bond', 'avg_dist': 'avg_dist'})
     if _u(ret) != 'return pos':
         raise Unsupported('vespr_layout does not end in `return pos`')
     # what comes before: positions from Kamada-Kawai, then the cis/trans correction, optional alignment
